@@ -32,6 +32,18 @@ Theorem C10_unbound_component_event_detected : forall m pp rp clients p d e,
 Proof. exact unbound_component_event_detected. Qed.
 Print Assumptions C10_unbound_component_event_detected.
 
+(* ... and records the given parent: whenever a call of FinalConstruct(parent) returns normally - the first or a repeated one,
+   whatever was recorded before, a null parent included - the component's meta information holds the parent it was given;
+   the call returns normally exactly when the binding checks above pass; a failing boundary check leaves the record alone *)
+Theorem C10_success_records_the_given_parent : forall m recorded given pp rp clients,
+  fst (final_construct_run m recorded given pp rp clients) = true -> snd (final_construct_run m recorded given pp rp clients) = given.
+Proof. exact run_records. Qed.
+Print Assumptions C10_success_records_the_given_parent.
+Theorem C10_run_succeeds_iff_checks_pass : forall m recorded given pp rp clients,
+  fst (final_construct_run m recorded given pp rp clients) = final_construct m pp rp clients.
+Proof. exact run_agrees. Qed.
+Print Assumptions C10_run_succeeds_iff_checks_pass.
+
 (* non-vacuity: the C01 demo shell - all bound after construction and user binding; one user-side event unbound: detected *)
 Example demo_fc :
   final_construct (ShellPlanFacts.final_slots C01.L_demo C01.pp_demo C01.rp_demo) C01.pp_demo C01.rp_demo [] = true /\
